@@ -97,9 +97,18 @@ def sweep(rep, scoped_cases, monitors_for, budgets=None, light=True,
             b = dict(budgets, delay=static_delay_budget)
         if case.get("budget_override"):
             b = dict(b, **case["budget_override"])
-        n, capped = engine.explore_case(
-            case, mk, b, hz, light, tie, on_run,
-            max_runs=max_runs_per_case, keep_snaps=True)
+        try:
+            n, capped = engine.explore_case(
+                case, mk, b, hz, light, tie, on_run,
+                max_runs=max_runs_per_case, keep_snaps=True)
+        except HarnessError as e:
+            # a prefix did not replay: executions of this case are not
+            # independent of what the process ran before.  Keep what was
+            # seen; the reporter decides (violations with a replayable
+            # witness win, otherwise this is a harness error).
+            n, capped = 0, False
+            out["harness"] = "%s (case %s)" % (e, json.dumps(
+                case, default=repr)[:300])
         out["runs"] = n
         out["capped"] = capped
         out["states"] = states
@@ -131,6 +140,8 @@ def sweep(rep, scoped_cases, monitors_for, budgets=None, light=True,
         for k, v in r["notes"].items():
             rep.extra.setdefault("notes", {})
             rep.extra["notes"][k] = rep.extra["notes"].get(k, 0) + v
+        if r.get("harness"):
+            rep.soft_errors.append(r["harness"])
         if r["capped"]:
             rep.cap("per-case execution cap hit in scope %s" % scope)
         if r["sample"] is not None and (
